@@ -482,7 +482,13 @@ class Engine(object):
                         other = b if x is a else a
                         if other.kind == "none":
                             continue
-                        raise Undecided("== on class %s with user-defined __eq__" % x.cls)
+                        if a.z.sort() != u.Val or b.z.sort() != u.Val:
+                            raise Undecided("== on class %s with user-defined __eq__" % x.cls)
+                        # user-defined __eq__: an uninterpreted relation per class, known only to be reflexive
+                        self.assumptions_used.add("A-usereq: %s.__eq__ is a pure relation that holds between an object and "
+                                                  "itself; nothing else is assumed about it" % x.cls)
+                        rel = u.uf("usereq_%s" % x.cls, u.Val, u.Val, u.Bool)
+                        return z3.Or(a.z == b.z, rel(a.z, b.z))
                 if x.kind == "ref" and x.cls in ("list", "tuple", "dict", "set"):
                     other = b if x is a else a
                     if other.kind == "none":
